@@ -39,7 +39,13 @@ class JSONCookie(SecureCookie):
         string = string.strip('"')  # this line is for a bug in werkzeug's
                                     # test client cookie jar usage:
                                     # https://github.com/pallets/werkzeug/issues/1060
-        return super(cls, JSONCookie).unserialize(string, secret_key)
+        try:
+            return super(cls, JSONCookie).unserialize(string, secret_key)
+        except Exception:
+            # e.g., malformed base64 in the signature or undecodable
+            # key bytes: whatever a client sends is at worst an empty
+            # cookie, never a server error
+            return cls((), secret_key, False)
 
     def set_expires(self, epoch_time=NOW):
         """
